@@ -181,7 +181,8 @@ theorem C07_floor_partial (w w' : World) (op : Op) (c : Coin)
   · obtain ⟨m, x, _, hx, _, _, _, _, h, _⟩ := swl_ok hok
     simp [hx] at hset; subst hset; exact h
 
-/-- the name the composite refinement (`Props/CompositeVending.lean`) uses for `C07_floor_partial` -/
+/-- alias of `C07_floor_partial` (kept because other modules refer to it: `Props/CompositeVending.lean`, `Props/CompositeOpenEdition.lean`).
+PARTIAL exactly as `C07_floor_partial`: for `create` it speaks about the PUBLIC price only. -/
 theorem C07_floor (w w' : World) (op : Op) (c : Coin)
     (hok : step w op = .ok w') (hset : setsPrice w op = some c) :
     w.fac.minPrice.amount ≤ c.amount :=
@@ -212,11 +213,19 @@ theorem C07_create_whitelist_denom_counterexample :
   decide
 
 /-- the same over histories: after ANY sequence of operations (arbitrary senders, amounts, times, governance
-changes of the minimum in between) the next successful price-setting operation respects the minimum in force then -/
+changes of the minimum in between) the next successful price-setting operation respects the minimum in force then.
+PARTIAL exactly as `C07_floor_partial` (`setsPrice` of `create` is the public price only; the whitelist named at creation and the
+later stages of a tiered whitelist are recorded findings, see the `_counterexample` theorems). -/
+theorem C07_floor_history_partial (w0 : World) (ops : List Op) (op : Op) (w' : World) (c : Coin)
+    (hok : step (run w0 ops) op = .ok w') (hset : setsPrice (run w0 ops) op = some c) :
+    (run w0 ops).fac.minPrice.amount ≤ c.amount :=
+  C07_floor_partial _ _ _ _ hok hset
+
+/-- alias of `C07_floor_history_partial` (kept because other modules refer to it) -/
 theorem C07_floor_history (w0 : World) (ops : List Op) (op : Op) (w' : World) (c : Coin)
     (hok : step (run w0 ops) op = .ok w') (hset : setsPrice (run w0 ops) op = some c) :
     (run w0 ops).fac.minPrice.amount ≤ c.amount :=
-  C07_floor _ _ _ _ hok hset
+  C07_floor_history_partial w0 ops op w' c hok hset
 
 /-- the stored result really is that price -/
 theorem C07_floor_effect (w w' : World) (op : Op) (hok : step w op = .ok w') :
@@ -245,8 +254,14 @@ Creation and `SetWhitelist` compare the denom with the factory minimum directly.
 `UpdateDiscountPrice` keep the denom fixed at creation, so they are "in the factory's denom" as long as the minter's
 denom and the factory's agree — an invariant of every history in which governance does not move the minimum to
 another denom. `sudo UpdateParams` only accepts the native denom, so for a factory whose minimum is native this is
-every history (`C07_floor_denom_native`); for a factory created with a non-native minimum any accepted governance
-change of the minimum breaks it (`C07_denom_switch_counterexample`, reported). -/
+every history (`C07_floor_denom_native_partial`); for a factory created with a non-native minimum any accepted governance
+change of the minimum breaks it (`C07_denom_switch_counterexample`, reported).
+
+All three denom theorems are PARTIAL with respect to the clause "… or in a different denom": `setsPrice` of `create` is the
+PUBLIC price only. A whitelist NAMED AT CREATION is compared with no denom at all, on ANY factory — native minimum included
+(`C07_create_whitelist_denom_counterexample` runs on a native-minimum factory; recorded finding
+`*/create/whitelist-denom-differs-from-factory-min`). What they do cover: the public price at creation, `UpdateMintPrice`,
+`UpdateDiscountPrice`, and the price a whitelist REPORTS at `SetWhitelist`. -/
 
 /-- the minter's prices are in the denom of the factory minimum -/
 def DenomInv (w : World) : Prop :=
@@ -332,8 +347,8 @@ theorem denomInv_run (w : World) (ops : List Op) (hinv : DenomInv w) (hgov : Gov
     · rw [he]; exact hinv
 
 /-- denom, per step: in a state whose minter is in the factory's denom, every successful price-setting operation
-sets a price in the denom of the factory minimum in force -/
-theorem C07_floor_denom (w w' : World) (op : Op) (c : Coin) (hinv : DenomInv w)
+sets a price in the denom of the factory minimum in force. PARTIAL (section header): public price only at creation. -/
+theorem C07_floor_denom_partial (w w' : World) (op : Op) (c : Coin) (hinv : DenomInv w)
     (hok : step w op = .ok w') (hset : setsPrice w op = some c) :
     c.denom = w.fac.minPrice.denom := by
   cases op <;> simp only [setsPrice, step] at hset hok <;> try (simp at hset; done)
@@ -346,19 +361,34 @@ theorem C07_floor_denom (w w' : World) (op : Op) (c : Coin) (hinv : DenomInv w)
   · obtain ⟨m, x, _, hx, _, _, _, _, _, h, _⟩ := swl_ok hok
     simp [hx] at hset; subst hset; exact h.symm
 
+/-- alias of `C07_floor_denom_partial` (kept because other modules refer to it) -/
+theorem C07_floor_denom (w w' : World) (op : Op) (c : Coin) (hinv : DenomInv w)
+    (hok : step w op = .ok w') (hset : setsPrice w op = some c) :
+    c.denom = w.fac.minPrice.denom :=
+  C07_floor_denom_partial w w' op c hinv hok hset
+
 /-- denom, all histories from a fresh factory in which governance changes only the AMOUNT of the minimum:
-every successful price-setting operation is in the denom of the factory minimum in force -/
-theorem C07_floor_denom_history (v : Variant) (now : Nat) (fac : Factory) (ops : List Op) (op : Op) (w' : World)
+every successful price-setting operation is in the denom of the factory minimum in force.
+PARTIAL (section header): public price only at creation. -/
+theorem C07_floor_denom_history_partial (v : Variant) (now : Nat) (fac : Factory) (ops : List Op) (op : Op) (w' : World)
     (c : Coin) (hgov : GovKeepsDenom (init v now fac) ops)
     (hok : step (run (init v now fac) ops) op = .ok w') (hset : setsPrice (run (init v now fac) ops) op = some c) :
     c.denom = (run (init v now fac) ops).fac.minPrice.denom := by
-  apply C07_floor_denom _ _ _ _ _ hok hset
+  apply C07_floor_denom_partial _ _ _ _ _ hok hset
   apply denomInv_run _ _ _ hgov
   intro m hm; simp [init] at hm
 
+/-- alias of `C07_floor_denom_history_partial` (kept because other modules refer to it) -/
+theorem C07_floor_denom_history (v : Variant) (now : Nat) (fac : Factory) (ops : List Op) (op : Op) (w' : World)
+    (c : Coin) (hgov : GovKeepsDenom (init v now fac) ops)
+    (hok : step (run (init v now fac) ops) op = .ok w') (hset : setsPrice (run (init v now fac) ops) op = some c) :
+    c.denom = (run (init v now fac) ops).fac.minPrice.denom :=
+  C07_floor_denom_history_partial v now fac ops op w' c hgov hok hset
+
 /-- a factory whose minimum is in the native denom: `sudo` only accepts the native denom, so NO hypothesis on the
-history is needed -/
-theorem C07_floor_denom_native (v : Variant) (now : Nat) (fac : Factory) (hnat : fac.minPrice.denom = NATIVE)
+history is needed. PARTIAL (section header): public price only at creation — the whitelist named at creation is not
+denom-checked on a native-minimum factory either (`C07_create_whitelist_denom_counterexample`). -/
+theorem C07_floor_denom_native_partial (v : Variant) (now : Nat) (fac : Factory) (hnat : fac.minPrice.denom = NATIVE)
     (ops : List Op) (op : Op) (w' : World) (c : Coin)
     (hok : step (run (init v now fac) ops) op = .ok w') (hset : setsPrice (run (init v now fac) ops) op = some c) :
     c.denom = NATIVE ∧ (run (init v now fac) ops).fac.minPrice.denom = NATIVE := by
@@ -394,7 +424,14 @@ theorem C07_floor_denom_native (v : Variant) (now : Nat) (fac : Factory) (hnat :
       · rw [he]; exact ih w h1 h2
   have h0 : DenomInv (init v now fac) := by intro m hm; simp [init] at hm
   obtain ⟨hI, hN⟩ := key (init v now fac) ops h0 (by simpa [init] using hnat)
-  exact ⟨by rw [C07_floor_denom _ _ _ _ hI hok hset, hN], hN⟩
+  exact ⟨by rw [C07_floor_denom_partial _ _ _ _ hI hok hset, hN], hN⟩
+
+/-- alias of `C07_floor_denom_native_partial` (kept because other modules refer to it) -/
+theorem C07_floor_denom_native (v : Variant) (now : Nat) (fac : Factory) (hnat : fac.minPrice.denom = NATIVE)
+    (ops : List Op) (op : Op) (w' : World) (c : Coin)
+    (hok : step (run (init v now fac) ops) op = .ok w') (hset : setsPrice (run (init v now fac) ops) op = some c) :
+    c.denom = NATIVE ∧ (run (init v now fac) ops).fac.minPrice.denom = NATIVE :=
+  C07_floor_denom_native_partial v now fac hnat ops op w' c hok hset
 
 /-- What happens without the hypothesis (vending-minter, factory minimum created in `denom1`): after governance
 sets a new minimum — necessarily in the native denom — `UpdateMintPrice 60` succeeds and the public price is
@@ -962,8 +999,11 @@ theorem uncapInv_step (w w' : World) (op : Op) (hoe : w.v.oe = true) (hinv : Unc
   · obtain ⟨m, _, hm, _, _, _, _, _, _, h⟩ := uet_ok hok
     subst h; simp [setMinter] at hm'; subst hm'; exact hinv m hm hcap
 
-/-- history form: on an open-edition factory, after ANY sequence of operations, an edition without a token cap is never
-free (its public price is non-zero) -/
+/-- history form: on an open-edition factory, after ANY sequence of operations, the PUBLIC price of an edition without a token
+cap is non-zero. Only the public price: "never free" in the name does NOT extend to whitelisted buyers — with a factory minimum of
+0 `SetWhitelist` admits a zero-priced whitelist (`minPrice.amount > x.price.amount` is the only refusal), and a whitelist named at
+creation is admitted at any price (`C07_create_whitelist_unchecked_counterexample`), so listed buyers may then mint an uncapped
+edition for free. -/
 theorem C07_oe_uncapped_never_free (v : Variant) (hv : v.oe = true) (now : Nat) (fac : Factory) (ops : List Op) (m : Minter)
     (hm : (run (init v now fac) ops).m = some m) (hcap : m.hasCap = false) : m.price.amount ≠ 0 := by
   have key : ∀ (w : World) (ops : List Op), w.v.oe = true → UncapInv w → UncapInv (run w ops) := by
